@@ -3,6 +3,7 @@ import Setec.Proofs.Json
 import Setec.Proofs.AuditStream
 import Setec.Spec.DBMon
 import Setec.Generated.Facts
+import Setec.Proofs.MonitorsSound
 /-!
 # C06 - the audit log records every disclosure, mutation attempt and denial, fail-closed
 
@@ -210,5 +211,17 @@ theorem fresh_encoder_glues :
 /-- T1: the writer creates its encoder once, in `New`, and only ever calls `Encode` on it -/
 theorem fact_one_encoder : Facts.auditEncoderSites = [("New", "json.NewEncoder"), ("WriteEntries", "Encode")] := by
   decide
+
+/-! ### the monitor clauses are the specification's own behaviour -/
+
+/-- `fail_closed`, `unchanged_silent` and `before_effect`, as evaluated by the driver on the real
+code's steps, hold of the specification's own step for every state, caller, operation and
+oracle choice. -/
+theorem monitors_sound (kv : KV.KV) (c : DB.Caller) (op : DB.Op) (aok sok : Bool) :
+    DBMon.c06_fail_closed (MonSound.obsOf kv c op aok sok) = true ∧
+    DBMon.c06_unchanged_silent (MonSound.obsOf kv c op aok sok) = true ∧
+    DBMon.c06_before_effect (MonSound.obsOf kv c op aok sok) = true :=
+  ⟨MonSound.c06_fail_closed_sound kv c op aok sok, MonSound.c06_unchanged_silent_sound kv c op aok sok,
+   MonSound.c06_before_effect_sound kv c op aok sok⟩
 
 end Setec.C06
